@@ -386,6 +386,17 @@ func (c *wsConnection) closeOnCancel(ctx context.Context) {
 }
 
 func (c *wsConnection) subscribe(start time.Time, msg *message) {
+	c.mu.Lock()
+	_, running := c.active[msg.id]
+	c.mu.Unlock()
+	if running {
+		// Checked before anything is answered under this id: the error and complete
+		// frames of a start that cannot be executed (invalid payload, invalid query)
+		// would otherwise end up in the stream of the operation that is still running.
+		c.close(4409, fmt.Sprintf("Subscriber for %s already exists", msg.id))
+		return
+	}
+
 	ctx := graphql.StartOperationTrace(c.ctx)
 	var params *graphql.RawParams
 	if err := jsonDecode(bytes.NewReader(msg.payload), &params); err != nil || params == nil {
